@@ -4647,3 +4647,9 @@ impl<'a, E: quiver_core::effects::Effect> Compiler<'a, E> {
         self.compile_accessor(last_type, accessors, target, base_prov)
     }
 }
+
+/// Verification hook (feature `verif`): re-export of the private narrowing helpers.
+#[cfg(feature = "verif")]
+pub mod verif {
+    pub use super::narrowing::{compute_complement, intersect_types};
+}
